@@ -69,7 +69,7 @@ Proof.
 Qed.
 
 Theorem installed_fixpoint_fields p files t :
-  inst_pkg_ok p -> p_name p <> "" -> sort_envelope files -> Forall id_ok files -> Forall one_slash files ->
+  inst_pkg_ok p -> p_name p <> "" -> sort_envelope files -> Forall id_ok files ->
   inst_fields_fit enc installed_max_token p -> Forall (file_fields_fit enc hexdec installed_max_token) files ->
   write_installed enc hexdec p files = Ok t ->
   exists sorted fl t',
@@ -82,7 +82,7 @@ Theorem installed_fixpoint_fields p files t :
     Forall2 line_step (pkg_to_installed enc p) (pkg_to_installed enc (norm_inst p)) /\
     InstalledFixpointModIZ t t'.
 Proof.
-  intros Hp Hn Henv Hid Hone Fp Ff Hw.
-  exact (installed_fixpoint enc dec hexdec codec p files t Hp Hn Henv Hid Hone Hw (fit_hyp p files Henv Hp Hid Fp Ff)).
+  intros Hp Hn Henv Hid Fp Ff Hw.
+  exact (installed_fixpoint enc dec hexdec codec p files t Hp Hn Henv Hid Hw (fit_hyp p files Henv Hp Hid Fp Ff)).
 Qed.
 End Fields.
